@@ -33,6 +33,7 @@ pub struct Violation {
 pub struct SimInner {
     pub tape: Tape,
     pub hash: u64,
+    pub hash_unordered: u64,
     pub trace_on: bool,
     pub trace: Vec<String>,
     pub steps: u64,
@@ -58,6 +59,7 @@ impl Sim {
         Sim(Rc::new(RefCell::new(SimInner {
             tape,
             hash: 0xcbf29ce484222325,
+            hash_unordered: 0,
             trace_on,
             trace: Vec::new(),
             steps: 0,
@@ -135,11 +137,33 @@ impl Sim {
                 if let Some(last) = s.trace.last_mut() {
                     *last = format!("step {} {}   (x{} up to here, first at step {})", step, t, n, step + 1 - n);
                 }
-            } else if s.trace.len() < 4000 {
+            } else if s.trace.len() < trace_cap() {
                 s.trace.push(format!("step {} {}", step, t));
                 s.last_text = Some(t);
                 s.repeat = 1;
             }
+        }
+    }
+
+    /// Like `event`, but folded into the log hash commutatively: for events whose mutual
+    /// order the properties leave open (handler invocations within one delivery) and which
+    /// an implementation may order by something the simulator does not control.
+    pub fn event_unordered<F: FnOnce() -> String>(&self, kind: u8, a: u64, b: u64, text: F) {
+        let _g = alloc::SimDomain::enter();
+        let mut s = self.0.borrow_mut();
+        let mut h = 0x9e3779b97f4a7c15u64;
+        for v in [kind as u64, a, b] {
+            h ^= v;
+            h = h.wrapping_mul(0x100000001b3);
+            h ^= h >> 29;
+        }
+        s.hash_unordered = s.hash_unordered.wrapping_add(h);
+        s.steps += 1;
+        if s.trace_on && s.trace.len() < trace_cap() {
+            let step = s.steps;
+            let t = text();
+            s.trace.push(format!("step {} {}", step, t));
+            s.last_text = None;
         }
     }
 
@@ -179,7 +203,8 @@ impl Sim {
     }
 
     pub fn hash(&self) -> u64 {
-        self.0.borrow().hash
+        let s = self.0.borrow();
+        s.hash ^ s.hash_unordered.rotate_left(17)
     }
 
     pub fn tracing(&self) -> bool {
@@ -195,7 +220,7 @@ impl Sim {
 
     pub fn note(&self, f: impl FnOnce() -> String) {
         let mut s = self.0.borrow_mut();
-        if s.trace_on && s.trace.len() < 4000 {
+        if s.trace_on && s.trace.len() < trace_cap() {
             let t = f();
             s.trace.push(t);
         }
@@ -294,4 +319,12 @@ pub fn show_packet(p: &Packet) -> String {
             hash_packet(p)
         )
     }
+}
+
+/// Maximum number of trace lines kept for a replay (ROSSSIM_TRACE_CAP overrides the default).
+pub fn trace_cap() -> usize {
+    thread_local! {
+        static CAP: usize = std::env::var("ROSSSIM_TRACE_CAP").ok().and_then(|v| v.parse().ok()).unwrap_or(4000);
+    }
+    CAP.with(|c| *c)
 }
